@@ -3,13 +3,16 @@
    C08tTreeB.v (the bounded search of tree_okb: saturation, soundness; side conditions), C08tTreeC.v (corollaries),
    C08tTreeD.v (connected + degree sum), C08tTreeE.v (the same on positions; executable usual_treeb), C08tTreeG.v
    (acyclic = no simple cycle; leaf existence; loop erasure), C08tTreeH.v (positions; converse tree_okb => acyclic),
-   C08tTreeI.v (all paths, all stars; non-vacuity).
+   C08tTreeI.v (all paths, all stars; non-vacuity), C08tTreeJ.v (usual_treeb decides), C08tTreeK.v (any nodelist),
+   C08tTreeL.v (inductive family of graphs).
 
    DEFINITIONS OF "TREE".  Positions 0 .. n-1 of `nodelist`, adjacency adjb G nodelist (an edge in either direction).
    (a) `tree_orderb G nodelist ord`: ord lists every position exactly once and every listed position has EXACTLY ONE
        neighbour among the positions listed after it, except the last one listed (`forest_orderb`: AT MOST one).  Read
        from the back, ord constructs G from a single vertex by repeatedly attaching a pendant vertex; C08tree_pendant_iff:
        equivalence with that inductive definition (`pendant`).
+   (a'') `gtree G`: the inductive family of `graph`s generated from a single node by attaching a new pendant node
+       (C08tree_gtree_order: every such graph has a tree order; C08tree_gtree_simple: it is a simple graph).
    (b) connected, and degree sum 2 (n - 1), i.e. |E| = |V| - 1 (pos_connected, pos_degsum; executable: usual_treeb).
    (c) connected and acyclic: no simple cycle (pos_connected, pos_acyclic).
    C08tree_usual_iff: (b) <=> (a).  C08tree_tree_iff_connected_acyclic(_pos): (c) <=> (a).  Forests: acyclic <=> (a').
@@ -25,7 +28,7 @@
    C08tree_usual_treeb_iff: the executable usual_treeb decides (b), (c) and the existence of a tree order.
    Instances for every n: C08tree_every_path_accepted, C08tree_every_star_accepted; caterpillar etc. by evaluation. *)
 From EoNV Require Import Prelude Graph Vec VecP Rhs2D Rhs2DP Rhs2 Rhs2GenP Master C08tG C08tS C08tT C08tR C08tA C08tO C08tF C08tC
-  C08tTreeA C08tTreeB C08tTreeC C08tTreeD C08tTreeE C08tTreeG C08tTreeH C08tTreeI C08tTreeJ C08tTreeK.
+  C08tTreeA C08tTreeB C08tTreeC C08tTreeD C08tTreeE C08tTreeG C08tTreeH C08tTreeI C08tTreeJ C08tTreeK C08tTreeL.
 
 (* ---------------- the definition: boolean test = inductive pendant-vertex construction ---------------- *)
 Theorem C08tree_pendant_iff : forall (adj : nat -> nat -> bool) ord,
@@ -167,6 +170,24 @@ Theorem C08tree_usual_treeb_iff : forall G nodelist,
   (usual_treeb G nodelist = true <-> noloopb G nodelist = true /\ pos_connected G nodelist /\ pos_acyclic G nodelist).
 Proof. exact usual_treeb_iff. Qed.
 
+(* ---------------- trees as an inductive family of graphs: a single node; attach a new pendant node ---------------- *)
+(* gtree (Proofs/C08tTreeL.v):  gtree (single v);  gtree G -> In u (gnodes G) -> ~ In v (gnodes G) -> gtree (attach G u v),
+   where attach appends v to list(G.nodes()), v to the adjacency list of u, and gives v the adjacency list [u] *)
+Theorem C08tree_gtree_simple : forall G, gtree G -> wf_graphb G = true.
+Proof. exact gtree_simple. Qed.
+Theorem C08tree_gtree_order : forall G, gtree G -> exists ord, tree_orderb G (gnodes G) ord = true.
+Proof. exact gtree_order. Qed.
+Theorem C08tree_gtree_exact_on_M : forall G tr rc, gtree G ->
+  let nodelist := gnodes G in let idx := pos_in (gnodes G) in
+  tree_okb G nodelist idx = true /\
+  forall p t, nonneg nodelist p -> inMs nodelist (branch_cuts G nodelist) p ->
+  veq (g_dSIR_pair_based (marginals G nodelist p) t G nodelist idx tr rc)
+      (marginals G nodelist (master_rhs G nodelist idx tr rc p)).
+Proof. exact gtree_exact. Qed.
+Example C08tree_nonvacuous_gtree : gtree ex_gpath4 /\ gtree ex_gcater /\
+  gadj ex_gcater 1%N = [0; 2; 4]%N /\ gnodes ex_gcater = [0; 1; 2; 3; 4; 5]%N.
+Proof. exact ex_gtrees. Qed.
+
 (* ---------------- two infinite families, every n: paths 0 - 1 - .. - (n-1) and stars with n leaves ---------------- *)
 Theorem C08tree_every_path_is_tree : forall n, tree_orderb (path_graph n) (nodes_upto n) (seq 0 n) = true.
 Proof. exact path_order. Qed.
@@ -265,6 +286,10 @@ Print Assumptions C08tree_usual_treeb_iff.
 Print Assumptions C08tree_side_conditions_any_nodelist.
 Print Assumptions C08tree_connected_acyclic_exact_any_nodelist.
 Print Assumptions C08tree_nonvacuous_any_nodelist.
+Print Assumptions C08tree_gtree_simple.
+Print Assumptions C08tree_gtree_order.
+Print Assumptions C08tree_gtree_exact_on_M.
+Print Assumptions C08tree_nonvacuous_gtree.
 Print Assumptions C08tree_every_path_is_tree.
 Print Assumptions C08tree_every_star_is_tree.
 Print Assumptions C08tree_every_path_accepted.
